@@ -10,10 +10,13 @@ props = [c['property_id'] for c in json.load(open(os.path.join(V, 'MANIFEST.json
 ids = sys.argv[1:] or sorted(d for d in os.listdir(SD) if os.path.isdir(os.path.join(SD, d)))
 
 
-def check(p):
-    r = subprocess.run([os.path.join(V, 'bin', 'check'), p, '--tier', 'quick', '--no-evidence'], capture_output=True, text=True)
-    keys = [l.strip().split(' @ ')[0].split(' ', 1)[1] for l in r.stdout.splitlines() if l.startswith('  ') and ' @ ' in l]
-    return p, r.returncode, keys
+def check_all():
+    """all properties' quick rules on /repo as it stands (one compilation, shared fact base)"""
+    r = subprocess.run([sys.executable, '-m', 'rsv.check_all', '--repo', '/repo'], capture_output=True, text=True, cwd=V)
+    try:
+        return json.loads(r.stdout)
+    except Exception:
+        return {'_infra': ['check_all failed: ' + (r.stderr or r.stdout)[-300:]]}
 
 
 st = subprocess.run(['git', '-C', '/repo', 'status', '--porcelain', '--untracked-files=no'], capture_output=True, text=True).stdout
@@ -27,14 +30,10 @@ for sid in ids:
         meta['detected_by'] = {'_error': 'patch no longer applies'}
     else:
         try:
-            with ThreadPoolExecutor(8) as ex:
-                res = list(ex.map(check, props))
+            res = check_all()
         finally:
             subprocess.run(['git', '-C', '/repo', 'checkout', '--', '.'], check=True)
-        meta['detected_by'] = {p: keys for p, rc, keys in res if rc == 1}
-        infra = [p for p, rc, keys in res if rc not in (0, 1)]
-        if infra:
-            meta['detected_by']['_infra'] = infra
+        meta['detected_by'] = res
     meta['detected_by_own_property'] = any(p in meta['detected_by'] for p in meta['breaks'])
     json.dump(meta, open(os.path.join(d, 'meta.json'), 'w'), indent=1)
     print(sid, 'own:', meta['detected_by_own_property'], json.dumps(meta['detected_by'])[:200])
